@@ -4,19 +4,43 @@
 (*  of the working tree by translate/t_cli.py on every run).               *)
 (*  The tables are finite: equality with the documented ones by evaluation.*)
 (* ====================================================================== *)
-From Coq Require Import String Ascii List ZArith QArith Bool Arith Lia.
+From Coq Require Import String Ascii List ZArith QArith Bool Arith Lia Permutation.
 From TK Require Import Cli_Model Cli_Spec Cli_Argv_Model Cli_Argv_Spec Cli_Proof_Decide Cli_Proof_Main Cli_Proof_Exit
-  Cli_Proof_Argv Cli.
+  Cli_Proof_Argv Cli_Proof_Perm Cli.
 Import ListNotations.
 Local Close Scope Q_scope.
 Local Open Scope string_scope.
 
-Lemma gen_tables_doc : gen_tables = doc_tables.
+(* the generated tables are the documented ones, up to the ORDER of the early-exit tests (which is
+   irrelevant: every exit returns the same code, Cli_Proof_Perm.first_exit_perm) *)
+Lemma gen_tables_fields : with_exits gen_tables doc_exits = doc_tables.
 Proof. vm_compute. reflexivity. Qed.
 
+Lemma gen_exits_perm : Permutation doc_exits gen_exits.
+Proof. apply perm_b_sound. vm_compute. reflexivity. Qed.
+
+Lemma gen_tables_shape : gen_tables = with_exits doc_tables gen_exits.
+Proof. rewrite <- gen_tables_fields. reflexivity. Qed.
+
+Lemma gen_catch_code : catch_code gen_tables = catch_code doc_tables.
+Proof. reflexivity. Qed.
+
+Lemma gen_options_doc : gen_options = doc_options.
+Proof. vm_compute. reflexivity. Qed.
+
+Lemma gen_decide_doc : forall a, cli_decide gen_tables a = cli_decide doc_tables a.
+Proof.
+  intro a. unfold cli_decide. rewrite gen_tables_shape.
+  change (t_options (with_exits doc_tables gen_exits)) with (t_options doc_tables).
+  apply decide_view_exits_perm; [exact gen_exits_perm|apply doc_exits_uniform].
+Qed.
+
 Lemma gen_tables_all :
-  gen_tables = doc_tables /\ gen_read_loop = doc_read_loop /\ gen_precompute = doc_precompute.
-Proof. repeat split; vm_compute; reflexivity. Qed.
+  with_exits gen_tables doc_exits = doc_tables /\ Permutation doc_exits gen_exits /\
+  gen_read_loop = doc_read_loop /\ gen_precompute = doc_precompute.
+Proof.
+  split; [exact gen_tables_fields|]. split; [exact gen_exits_perm|]. split; vm_compute; reflexivity.
+Qed.
 
 (* line by line: every generated kwargs line is the documented line for that keyword and every
    documented keyword is bound (the tables are equal, so membership transfers) *)
@@ -27,7 +51,7 @@ Lemma gen_wiring_lines : forall kv, In kv gen_wiring <-> In kv doc_wiring.
 Proof. rewrite gen_wiring_eq. tauto. Qed.
 
 Theorem gen_decide_spec : forall a, cli_decide gen_tables a = spec_decide a.
-Proof. rewrite gen_tables_doc. exact cli_decide_spec. Qed.
+Proof. intro a. rewrite gen_decide_doc. apply cli_decide_spec. Qed.
 
 Theorem gen_wiring_sem : forall a ps io, cli_decide gen_tables a = Run ps io ->
   run_facts (args_ok doc_options a) (view_of a) ps io.
@@ -64,8 +88,15 @@ Section GenMain.
 
   Definition gen_main := cli_main V parse print lib gen_tables gen_read_loop.
 
-  Lemma gen_main_doc : gen_main = cli_main V parse print lib doc_tables LoopGetline.
-  Proof. unfold gen_main. rewrite gen_tables_doc. reflexivity. Qed.
+  Lemma gen_read_loop_doc : gen_read_loop = LoopGetline.
+  Proof. vm_compute. reflexivity. Qed.
+
+  Lemma gen_main_doc : forall a content,
+    gen_main a content = cli_main V parse print lib doc_tables LoopGetline a content.
+  Proof.
+    intros a content. unfold gen_main, cli_main. rewrite gen_decide_doc, gen_catch_code, gen_read_loop_doc.
+    reflexivity.
+  Qed.
 
   Theorem gen_main_run : forall a content ps io,
     cli_decide gen_tables a = Run ps io ->
@@ -92,19 +123,19 @@ Section GenMain.
       end
     end.
   Proof.
-    intros a content ps io H. rewrite gen_main_doc. rewrite gen_tables_doc in H.
+    intros a content ps io H. rewrite gen_main_doc. rewrite gen_decide_doc in H.
     exact (cli_main_run V parse print lib a content ps io H).
   Qed.
 
   Theorem gen_main_unequal_rows : forall a content,
     (forall d, exists i, read_data_fixed V parse d content = RWrong i) ->
     exists c, gen_main a content = Fail c /\ c <> 0%Z.
-  Proof. rewrite gen_main_doc. exact (cli_main_unequal_rows V parse print lib). Qed.
+  Proof. intros a content H. rewrite gen_main_doc. exact (cli_main_unequal_rows V parse print lib a content H). Qed.
 
   Theorem gen_main_cases : forall a content,
     (exists c, gen_main a content = Fail c /\ c <> 0%Z) \/
     (exists out, gen_main a content = Done 0%Z out).
-  Proof. rewrite gen_main_doc. exact (cli_main_cases V parse print lib). Qed.
+  Proof. intros a content. rewrite gen_main_doc. exact (cli_main_cases V parse print lib a content). Qed.
 End GenMain.
 
 Theorem gen_defaults : forall ps io, cli_decide gen_tables [] = Run ps io ->
@@ -113,7 +144,7 @@ Theorem gen_defaults : forall ps io, cli_decide gen_tables [] = Run ps io ->
   assoc "fa_epsilon" ps = Some (VDbl (1 # 100000)) /\
   assoc "num_neighbors" ps = Some (VInt 10) /\
   assoc "spe_global_strategy" ps = Some (VBool true).
-Proof. rewrite gen_tables_doc. exact defaults_are_literals. Qed.
+Proof. intros ps io H. rewrite gen_decide_doc in H. exact (defaults_are_literals ps io H). Qed.
 
 (* complete characterisation of the exit status before the library is called *)
 Theorem gen_exit_iff : forall a,
@@ -146,7 +177,7 @@ Theorem gen_argv_spec : forall rd argv,
   cli_decide_argv rd gen_options gen_tables argv = spec_argv rd argv.
 Proof.
   intros rd argv. unfold cli_decide_argv, spec_argv.
-  assert (E : gen_options = doc_options) by (vm_compute; reflexivity). rewrite E.
+  rewrite gen_options_doc.
   destruct (scan rd doc_options argv []); [apply gen_decide_spec|].
-  rewrite gen_tables_doc. reflexivity.
+  rewrite gen_catch_code. reflexivity.
 Qed.
